@@ -295,9 +295,9 @@ namespace Dune
     }
 
     //! Matrix negation
-    derived_type operator- () const
+    AutonomousValue<MAT> operator- () const
     {
-      MAT result = asImp();
+      AutonomousValue<MAT> result = asImp();
       using idx_type = typename decltype(result)::size_type;
 
       for (idx_type i = 0; i < rows(); ++i)
